@@ -49,8 +49,13 @@ def euler_states(g, tier):
     return R, M, P
 
 
-def widths_for(n):
+def widths_for(n, mode=None):
+    """cell widths for the packed 1D mesh; mode 'tiny': the same at a scale of 1e-6, 'near': cells equal to within a few 1e-6"""
     w = np.array([0.5, 1.0, 2.0, 1.0, 0.5, 2.0, 2.0])
+    if mode == "tiny":
+        return np.resize(w, n) * 0.37e-6
+    if mode == "near":
+        return 1.0 + 1e-6 * (np.resize(w, n) - 1.0)
     return np.resize(w, n) * 0.37
 
 
@@ -75,7 +80,7 @@ def eval_pointwise(cfg, res=None):
         U = M * c
         cond = 1.0 + g * M * M
         model = space.euler.euler1d(gamma=g) if kind == "euler1d" else space.euler.nozzle(space.SECTION_LAWS["parab"], gamma=g)
-        w = widths_for(n)
+        w = widths_for(n, extra.get("widths"))
         m = space.mesh_from_widths(w, -1.0)
         hs = m.xf[1:] - m.xf[:-1]
         disc = space.modeldisc.fvm(model, m, space.xnum.extrapol1())
@@ -168,7 +173,7 @@ def eval_pointwise(cfg, res=None):
         U = F * c
         n = H.size
         model = space.shallow.shallowwater1d(g=g)
-        m = space.mesh_from_widths(widths_for(n), 3.0)
+        m = space.mesh_from_widths(widths_for(n, extra.get("widths")), 3.0)
         hs = m.xf[1:] - m.xf[:-1]
         disc = space.modeldisc.fvm(model, m, space.xnum.extrapol1())
         q = np.array([H, H * U])
@@ -197,7 +202,7 @@ def eval_pointwise(cfg, res=None):
         vals = np.array(sorted(set([0.0] + [s_ * m_ * 10.0 ** e for s_ in (1, -1) for m_ in (1.0, 3.0) for e in range(-6, 7, 2)])))
         n = vals.size
         model = space.make_model((kind, par) if kind == "convection" else (kind,))
-        m = space.mesh_from_widths(widths_for(n), -2.0)
+        m = space.mesh_from_widths(widths_for(n, extra.get("widths")), -2.0)
         hs = m.xf[1:] - m.xf[:-1]
         disc = space.modeldisc.fvm(model, m, space.xnum.extrapol1())
         f = space.field.fdata(model, m, [vals.copy()])
@@ -294,11 +299,14 @@ def eval_driver(cfg, res=None):
         return d, cls(m, d)
     # global step: t_{k+1} - t_k = min dt(Q_k), Q_k taken from a shorter solve on a fresh solver
     prev_t, prev_f = 0.0, space.field.fdata(model, m, [x.copy() for x in data])
+    first_plain = None
     for k in range(1, 4):
         d, s = mk()
         with np.errstate(all="ignore"):
             r = s.solve(space.field.fdata(model, m, [x.copy() for x in data]), cfl, stop={"maxit": k})
         fk = r[-1]
+        if k == 1:
+            first_plain = fk
         with np.errstate(all="ignore"):
             want = float(np.min(d.calc_timestep(prev_f, cfl)))
         inc = fk.time - prev_t
@@ -358,6 +366,15 @@ def eval_driver(cfg, res=None):
         out.append(("C18/driver/dtlocal-time-advances-by-minimum", "%s %s data %r: time %r, min dt %r" % (iname, kind, idx, r[-1].time, dtl.min()), 0))
     if len(set(np.round(dtl / dtl.min(), 12))) > 1 and res is not None:
         res.nontrivial += 1
+    # history on one solver object: after a run with the directive, a plain solve again takes the minimum over cells as its global step
+    with np.errstate(all="ignore"):
+        r2 = s.solve(space.field.fdata(model, m, [x.copy() for x in data]), cfl, stop={"maxit": 1})
+    if res is not None:
+        res.evals += 1
+        res.transitions += 1
+    if not (r2[-1].time == first_plain.time and all(np.array_equal(a, b, equal_nan=True) for a, b in zip(r2[-1].data, first_plain.data))):
+        out.append(("C18/driver/global-step-after-a-dtlocal-run-on-the-same-solver", "%s %s data %r: a plain solve on a solver that has just run with dtlocal reaches t=%r, a fresh solver t=%r (or different data)"
+                    % (iname, kind, idx, r2[-1].time, first_plain.time), 0))
     return out
 
 
@@ -399,6 +416,10 @@ def run(ctx):
     for a in (1.5, -1.5, 1e-3, -1e3):
         cfgs.append(("convection", a, {}))
     cfgs.append(("burgers", None, {}))
+    # the same on meshes at an unusual absolute scale and with nearly equal cells
+    for mode in ("tiny", "near"):
+        cfgs += [("euler1d", 1.4, {"tier": "quick", "widths": mode}), ("nozzle", 5.0 / 3.0, {"tier": "quick", "widths": mode}),
+                 ("shallowwater", 9.81, {"widths": mode}), ("convection", -1.5, {"widths": mode}), ("burgers", None, {"widths": mode})]
     ctx.pmap("pointwise", shard_point, cfgs)
     loc = []
     for kind, par in (("euler1d", 1.4), ("shallowwater", 9.81), ("convection", -1.5), ("burgers", None)):
